@@ -88,6 +88,7 @@ func verifyFunction(l *Loaded, specs *Specs, ct *Contract) (rep *FuncReport, w *
 	entryEnv := w.contractEnv(fr, fr.entry, fr.entry)
 	for _, rq := range ct.Requires {
 		w.sc.assume(w.evalBool(entryEnv, rq.Expr))
+		w.noteQuantFacts(tTrue, entryEnv, rq.Expr)
 	}
 	for _, sp := range ct.Splits {
 		w.splits = append(w.splits, w.sc.bind("split", w.evalBool(entryEnv, sp.Expr)))
@@ -134,7 +135,7 @@ func verifyFunction(l *Loaded, specs *Specs, ct *Contract) (rep *FuncReport, w *
 		if len(props) == 0 {
 			props = ct.Props
 		}
-		o := w.oblige("ensures", "ensures."+lbl, exit.cond, w.evalBool(env, en.Expr), en.Star, props)
+		o := w.oblige("ensures", "ensures."+lbl, exit.cond, w.skolemGoal(env, en.Expr), en.Star, props)
 		o.Pos = en.Line
 		o.Clause = en
 		if w.replay != nil {
